@@ -2,6 +2,7 @@
 #![allow(non_snake_case)]
 pub mod src;
 pub mod oracle;
+pub mod kf;
 pub mod bodies;
 pub mod registry;
 
